@@ -366,6 +366,11 @@ class MoleculeResolver:
                     else:
                         hcount = max(0, hcount - 1)
                 self.molecule.nodes[node_to_keep]['hcount'] = hcount
+            # annotations that are only written on the copy that is removed
+            # (e.g. a chirality label or the marks of a cis/trans double
+            # bond) stay with the merged atom
+            for key, value in self.molecule.nodes[node_to_remove].items():
+                self.molecule.nodes[node_to_keep].setdefault(key, value)
             self.molecule = nx.contracted_nodes(self.molecule,
                                                 node_to_keep,
                                                 node_to_remove,
